@@ -39,12 +39,12 @@ CHECKS.update({
          "Exploration: 9 model runs per program over classic + random litmus programs. Also blocking programs (all clauses) and blocking programs with yields (first clause only: preemptions counted from the decision paths).",
          "trusted: pathmon.rs preemption counter, lit.rs interpreter", "§5-C15"),
  "C19": ("runtime monitoring: decision-path trie (no alternative explored at a branch taken with exploration disabled), metamorphic result-set comparisons for six control placements, exact-need probes for max_branches / max_permutations / max_duration / max_threads",
-         "Exploration: ~22 model runs per program over classic + random litmus programs (eight placements of the controls, incl. a region right after an explorable decision with the lower bound that every placement of the region among the other threads is still explored, and stop_exploring() as the last call of an iteration) plus child-process probes of max_threads. Also skip_branch followed by explore (placements 9/10), every max_branches in the upper half below the need, and the limits applied to runs resumed from a checkpoint.",
+         "Exploration: ~22 model runs per program over classic + random litmus programs (eight placements of the controls, incl. a region right after an explorable decision with the lower bound that every placement of the region among the other threads is still explored, and stop_exploring() as the last call of an iteration) plus child-process probes of max_threads. Also skip_branch followed by explore (placements 9/10), every max_branches in the upper half below the need, and the limits applied to runs resumed from a checkpoint. Also both limits (max_permutations and max_duration) set at once.",
          "trusted: pathmon.rs, lit.rs interpreter; equality only demanded where the region provably holds no two-alternative decision", "§5-C19"),
 })
 CHECKS.update({
  "C04": ("runtime monitoring: loom::model's causality-violation verdict on generated programs vs. an independent happens-before computation (axiomatic race oracle for atomics idioms, vector-clock reference machine for lock/channel/park/notify idioms)",
-         "Exploration: enumerated message-passing idioms (1-2 hops, RMW chains, fence pairs, spawn/join, unsync_load) in every ordering assignment + random programs; loom must report a race iff some consistent execution has two conflicting accesses unordered by happens-before (strong/weak gap decides nothing). Also closure-long cell accesses that publish a flag from inside the closure (CellHold) and every assignment of read-guard/write-guard/mutex blocks over one cell to 3 threads.",
+         "Exploration: enumerated message-passing idioms (1-2 hops, RMW chains, fence pairs, spawn/join, unsync_load) in every ordering assignment + random programs; loom must report a race iff some consistent execution has two conflicting accesses unordered by happens-before (strong/weak gap decides nothing). Also closure-long cell accesses that publish a flag from inside the closure (CellHold) and every assignment of read-guard/write-guard/mutex blocks over one cell to 3 threads. Also two queued channel messages with the read after the first receive only (gated on relaxed flags), and an Arc part: which Arc operations are synchronisation edges (release of a handle, then failing/successful try_unwrap, clone+drop, increment+decrement, behind a relaxed flag).",
          "trusted: rc11.rs race_verdict, sync.rs reference machine; await loops modelled as blocking reads", "§5-C04"),
  "C06": ("runtime monitoring with fault injection: user assertions injected at crash points (any thread, while holding guards, inside with_mut closures, while others are blocked, before a spawned thread ran, at the branch limit); catch_unwind verdict vs. reachable failures of the reference machine; worker survival; probe model compared with its fresh-process record",
          "Fault enumeration: every program carries one or more injected failures; loom::model must unwind with a reachable failure (never return normally, never kill the process), return normally when none is reachable, and leave the process clean for the next model. Also failures raised while the thread owns objects whose destructors lock a held mutex (FailDropLock), while threads have live thread-locals with loom operations in their destructors (Tls), crash points at max_branches = L-1, 2L/3, L/2, the thread-local/lazy-static programs (none can fail), and a per-job monitor that std::thread::panicking() is false after every model returned.",
@@ -52,10 +52,10 @@ CHECKS.update({
 })
 CHECKS.update({
  "C10": ("runtime monitoring with leak injection: loom::model's leak verdict (panic classifier) vs. the live set of a reference-count / allocation / message-queue machine at the end of every interleaving",
-         "Exploration: Arc handles, Track values, raw allocations and channel messages created, moved, dropped, forgotten or leaked schedule-dependently in 2-3 threads; loom must report a leak of a reachable kind iff some schedule ends with a live object. Also early receiver drops (DropRx), releases performed by destructors inside a catch_unwind of the program itself.",
+         "Exploration: Arc handles, Track values, raw allocations and channel messages created, moved, dropped, forgotten or leaked schedule-dependently in 2-3 threads; loom must report a leak of a reachable kind iff some schedule ends with a live object. Also early receiver drops (DropRx), releases performed by destructors inside a catch_unwind of the program itself. Also detached children whose unclaimed return value is the first user of a thread-local owning tracked objects, and handles given back through into_raw + decrement_strong_count.",
          "trusted: arcs.rs / sync.rs reference machines, panic classifier", "§5-C10"),
  "C11": ("runtime monitoring: every returned count / Option / Result replayed on a reference-count machine in log order, drop-exactly-once counter on the payload, result sets vs. reference, loom's race detector on a payload cell as witness of the drop ordering",
-         "Exploration: exhaustive 2-thread core over clone/drop/strong_count/get_mut + try_unwrap, raw round trips, increment/decrement_strong_count + random programs (<= 8 handle operations). A successful get_mut writes the payload through the &mut it returns (happens-before from the earlier owners' reads).",
+         "Exploration: exhaustive 2-thread core over clone/drop/strong_count/get_mut + try_unwrap, raw round trips, increment/decrement_strong_count + random programs (<= 8 handle operations). A successful get_mut writes the payload through the &mut it returns (happens-before from the earlier owners' reads). Also RawDrop (into_raw + decrement_strong_count as the release of a handle) and detached children.",
          "trusted: arcs.rs reference-count machine, replay, interpreter (handles created before the first spawn)", "§5-C11"),
 })
 CHECKS.update({
@@ -66,13 +66,13 @@ CHECKS.update({
          "Exploration over pairs/mixes of programs with fault injection (seven kinds of failing models run in between), plus pristine-replay probes: every k-th iteration of programs with SeqCst fences / exploration controls is re-run from its checkpoint (pristine state) and must reproduce the uninterrupted run. Also pristine-replay probes over blocking programs with yields, and the thread-local/lazy-static programs with a per-iteration monitor (lazy statics are dropped in this iteration's initialisation order).",
          "trusted: record digests, iteration hook; sanitizer lanes (TSan for the concurrent part, memcheck) are extra commands of the thorough tier", "§5-C16"),
  "C17": ("runtime monitoring: init/drop counters in std atomics checked per iteration at the iteration hook, ownership marks, instance addresses, try_with inside destructors, loom's race detector on data written inside a lazy static's init",
-         "Exploration: exhaustive 2-thread core of static accesses + random programs with racing first accesses. Also destructors that start with a scheduling point with a monitor in the joiner (after join(t) every thread-local of t has been dropped) and the initialisation count of a lazy static whose initialiser yields (open known finding).",
+         "Exploration: exhaustive 2-thread core of static accesses + random programs with racing first accesses. Also destructors that start with a scheduling point with a monitor in the joiner (after join(t) every thread-local of t has been dropped) and the initialisation count of a lazy static whose initialiser yields (open known finding). Also first users of a thread-local that come after the thread's ordinary destructor pass (a lazy static's destructor in main, the unclaimed return value of a detached thread); the late thread-local owns a loom Arc, so a value destroyed outside the execution also shows in the leak check.",
          "trusted: counters, iteration hook", "§5-C17"),
  "C18": ("runtime monitoring: outcome sets of programs with yielding spin loops vs. the axiomatic reference with an await as a blocking read; panic classifier for the branch limit",
-         "Exploration: enumerated await shapes in every ordering pair + random programs + never-true loops. The await's result carries a 'spun' bit and loop bodies can announce the wait with a store; for every set of awaits that spun the reference is the program with one explicit failed load (+ body store) before them; loom's documented yield rule is an exemption from the must-set only (open known finding on combinations with other threads' observations).",
+         "Exploration: enumerated await shapes in every ordering pair + random programs + never-true loops. The await's result carries a 'spun' bit and loop bodies can announce the wait with a store; for every set of awaits that spun the reference is the program with one explicit failed load (+ body store) before them; loom's documented yield rule is an exemption from the must-set only (open known finding on combinations with other threads' observations). Also an rmwspin part: await loops whose check is a read-modify-write (swap test-and-set, fetch_add(0), fetch_or, CAS loop) in 3 ordering pairs, waiter in main/child, yield_now/spin_loop, a test-and-set lock around a cell, never-released loops.",
          "trusted: rc11.rs, lit.rs interpreter", "§5-C18"),
  "C20": ("runtime monitoring: block_on verdict (return value / deadlock panic) vs. an explicit-state model of poll/wait/wake, poll and wake counters, unique-id wakers registered in AtomicWaker",
-         "Exploration: every waking script of <= 3 steps for both waker-publication protocols, with and without the re-check, 1-2 waking threads, one flag per waker, relaxed flags, and the direct protocol (waker clones handed to threads spawned at the first poll, so only the wake orders the flag before the re-poll).",
+         "Exploration: every waking script of <= 3 steps for both waker-publication protocols, with and without the re-check, 1-2 waking threads, one flag per waker, relaxed flags, and the direct protocol (waker clones handed to threads spawned at the first poll, so only the wake orders the flag before the re-poll). Also polls that wake themselves through the borrowed waker and return Pending (yield_now().await), and a counter incremented by every waker.",
          "trusted: fam_fut.rs reference model", "§5-C20"),
 })
 NOT_YET = {}
